@@ -159,7 +159,7 @@ const SYMS: &[&str] = &[
     "+", "-", "*", "/", "^", "%", "&", "!", "=", "?", ":", ">", "<", "|", "==", "!=", "<=", ">=", "&&", "||", "<<", ">>", "<<=", ">>=", "+=",
     "-=", "*=", "/=", "%=", "&=", "^=", "|=", "++", "--", "+++", "---", "=>", "<>", "**",
 ];
-const MULTI: &[char] = &['é', 'ß', '€', '中', '😀', '\u{10FFFF}', '\u{80}', '\u{7FF}', '\u{800}', '\u{FFFF}', '\u{10000}', '\u{A0}', '\u{2028}', '\u{B}', '\u{C}', '\u{85}', '\u{3000}', '\u{2003}', '\u{FEFF}'];
+const MULTI: &[char] = &['é', 'ß', '€', '中', '😀', '\u{10FFFF}', '\u{80}', '\u{7FF}', '\u{800}', '\u{FFFF}', '\u{10000}', '\u{A0}', '\u{2028}', '\u{B}', '\u{C}', '\u{85}', '\u{3000}', '\u{2003}', '\u{FEFF}', '\u{7F}', '\u{1}', '\u{1F}', '\u{80}'];
 
 /// A random input biased towards the character classes the tokenizer distinguishes.
 pub fn random_input(rng: &mut impl Rng, max_chars: usize) -> String {
